@@ -34,6 +34,9 @@ fn gen_stream(stream: &str, n: u64, seed: u64) {
             let e = gen::gen_tree(&mut r, depth, stream == "evalill"); writeln!(w, "eval {} {}", d.show(), show_expr(&e)).unwrap(); },
         "scanfrag" => { // exhaustive fragment sequences up to length n (n = 3 or 4), then nothing random
             for len in 1..=(n as usize) { for i in 0..32u64.pow(len as u32) { writeln!(w, "scan {}", hex(&lang::frag_seq(i, len))).unwrap(); } } }
+        // every Unicode scalar value (n >= 1) or the blocks where scripts, numerals and case pairs live (n = 0), 256 code points per request
+        "scanchars" => { let blocks: Vec<(u32, u32)> = if n >= 1 { vec![(0, 0x110000)] } else { vec![(0, 0x3400), (0xA000, 0xAC00), (0xF900, 0x11000), (0x1D000, 0x1F000), (0xE0000, 0xE0200)] };
+            for (a, b) in blocks { let mut s = a; while s < b { writeln!(w, "scanrange {} 256", s).unwrap(); s += 256; } } }
         "scan" => for _ in 0..n { writeln!(w, "scan {}", hex(&lang::gen_text(&mut r))).unwrap(); },
         "compile" => for _ in 0..n { writeln!(w, "compile {}", hex(&lang::gen_text(&mut r))).unwrap(); },
         "compiledeep" => for _ in 0..n {
@@ -52,12 +55,12 @@ fn gen_stream(stream: &str, n: u64, seed: u64) {
             for len in 0..=(n as usize) { for mut i in 0..k.pow(len as u32) { let mut ts = vec![]; for _ in 0..len { ts.push(kinds[(i % k) as usize].clone()); i /= k; }
                 writeln!(w, "parse {}", lang::show_tok_line(&ts)).unwrap(); } } }
         "parse" => for _ in 0..n { let len = r.usize(41); let ts = lang::gen_tokens(&mut r, len); writeln!(w, "parse {}", lang::show_tok_line(&ts)).unwrap(); },
-        "rt" => for _ in 0..n { let d = 1 + r.below(4) as u32; let e = lang::gen_src_tree(&mut r, d); writeln!(w, "rt {} {}", r.below(6), show_expr(&e)).unwrap(); },
+        "rt" => for _ in 0..n { let d = 1 + r.below(4) as u32; let e = if r.chance(1, 60) { lang::gen_wide_tree(&mut r) } else { lang::gen_src_tree(&mut r, d) }; writeln!(w, "rt {} {}", r.below(6), show_expr(&e)).unwrap(); },
         "opt" | "optill" => for _ in 0..n { let d = gen::gen_env(&mut r); let depth = 1 + r.below(4) as u32;
             let e = tree::gen_opt_tree(&mut r, depth, stream == "optill"); writeln!(w, "opt {} {}", d.show(), show_expr(&e)).unwrap(); },
         // deep ill-formed trees (nesting 1..=64) for the totality streams: `deep:<stream>`
-        st if st.starts_with("deep:") => { let kind = &st[5..]; for _ in 0..n {
-            let depth = 1 + r.below(64) as u32; let e = gen::gen_deep_tree(&mut r, depth); let d = gen::gen_env(&mut r);
+        st if st.starts_with("deep:") || st.starts_with("vdeep:") => { let vd = st.starts_with("vdeep:"); let kind = &st[if vd { 6 } else { 5 }..]; for _ in 0..n {
+            let depth = 1 + r.below(if vd { 260 } else { 64 }) as u32; let e = gen::gen_deep_tree(&mut r, depth); let d = gen::gen_env(&mut r);
             match kind { "json" => writeln!(w, "json {}", show_expr(&e)).unwrap(),
                 "tcmp" => { let e2 = if r.chance(1, 3) { e.clone() } else { let d2 = 1 + r.below(64) as u32; gen::gen_deep_tree(&mut r, d2) }; writeln!(w, "tcmp {} {}", show_expr(&e), show_expr(&e2)).unwrap() }
                 k => writeln!(w, "{} {} {}", k, d.show(), show_expr(&e)).unwrap() } } }
@@ -83,12 +86,14 @@ fn gen_stream(stream: &str, n: u64, seed: u64) {
             if n >= 1 { let mut z = -719162i64; while z < 2932897 { writeln!(w, "tmrange d {} {}", z, chunk.min(2932897 - z)).unwrap(); z += chunk; }
                         let mut ms = 0i64; while ms < 86400000 { writeln!(w, "tmrange t {} {}", ms, (100000i64).min(86400000 - ms)).unwrap(); ms += 100000; }
                         for i in 0..200 { writeln!(w, "tmrange c {} 5000", seed.wrapping_mul(1000).wrapping_add(i)).unwrap(); }
+                        for i in 0..200 { writeln!(w, "tmrange n {} 5000", seed.wrapping_mul(1000).wrapping_add(i)).unwrap(); }
                         writeln!(w, "tmrange r 0 20000").unwrap(); }
             else { for _ in 0..40 { writeln!(w, "tmrange d {} 2000", (r.below(3652059 - 2000) as i64) - 719162).unwrap(); }
                    for z in [-719162i64, 2932896 - 1999, -1000, 10957 - 1000, 11016 - 500] { writeln!(w, "tmrange d {} 2000", z).unwrap(); }   // year 1, year 9999, 1970, 2000 leap day
                    for _ in 0..40 { writeln!(w, "tmrange t {} 5000", r.below(86400000 - 5000)).unwrap(); }
                    for ms in [0i64, 86400000 - 5000, 3600000 - 2500, 43200000 - 2500] { writeln!(w, "tmrange t {} 5000", ms).unwrap(); }
                    for i in 0..20 { writeln!(w, "tmrange c {} 2000", seed.wrapping_mul(1000).wrapping_add(i)).unwrap(); }
+                   for i in 0..20 { writeln!(w, "tmrange n {} 2000", seed.wrapping_mul(1000).wrapping_add(i)).unwrap(); }
                    writeln!(w, "tmrange r 0 2000").unwrap(); } }
         "mathlaw" => {
             // all code points (chunks), integers around 0 / 2^53 / random, doubles from the boundary pool + random bits
@@ -175,6 +180,12 @@ fn main() {
             }
         }
         Some("unicode-tables") => unicode_tables(),
+        // the individual `scan` requests behind one `scanrange <start> <cnt>` request (to pin a digest mismatch to one input)
+        Some("expand-scanrange") => {
+            let start: u32 = args[2].parse().unwrap(); let cnt: u32 = args[3].parse().unwrap();
+            let out = std::io::stdout(); let mut w = std::io::BufWriter::new(out.lock());
+            for cp in start..start + cnt { if let Some(c) = char::from_u32(cp) { for (text, _) in lang::scan_contexts(c) { writeln!(w, "scan {}", codec::hex(&text)).unwrap(); } } }
+        }
         Some("builtins-table") => tables::builtins_table(),
         Some("dispatch-table") => tables::dispatch_table(),
         Some("oracle") => {
